@@ -179,6 +179,7 @@ impl ZchDynamicState {
         self.zchd_ticks_until_disable = 0;
         self.zchd_ticks_until_enabled = 0;
         self.zchd_smart_space_state = ZchSmartSpaceState::Inactive;
+        self.zchd_same_hold_activation_count = 0;
         self.zchd_clear_history();
     }
 
@@ -295,6 +296,12 @@ impl ZchState {
                 })
         {
             self.zchd.zchd_characters_to_delete_on_next_activation -= 1;
+            if self.zchd.zchd_same_hold_activation_count > 0 {
+                // Still in the hold of the activation that added the space: it was counted in
+                // both (see where it is added). After a full release the count above has been
+                // reset and going negative makes up for the space in the other count.
+                self.zchd.zchd_prior_activation_output_count -= 1;
+            }
             kb.press_key(OsCode::KEY_BACKSPACE)?;
             kb.release_key(OsCode::KEY_BACKSPACE)?;
         }
@@ -405,8 +412,15 @@ impl ZchState {
                     // chain has an activation output that is not empty. For empty outputs, do not
                     // do any backspacing.
                     self.zchd.zchd_characters_to_delete_on_next_activation += 1;
+                    // What a later followup has to erase grows by what this hold has put on
+                    // screen: everything typed in it so far if this is its first activation,
+                    // only this key if an earlier activation of the same hold was counted.
                     self.zchd.zchd_prior_activation_output_count +=
-                        self.zchd.zchd_input_keys.zchik_keys().len() as i16;
+                        if self.zchd.zchd_same_hold_activation_count == 1 {
+                            self.zchd.zchd_characters_to_delete_on_next_activation
+                        } else {
+                            1
+                        };
                     kb.press_key(osc)?;
                 }
 
